@@ -27,10 +27,11 @@ func (v *Vue) evalInclude(ctx VueContext, node *html.Node, vars map[string]any, 
 	ctx.stack.Push(vars)
 	defer ctx.stack.Pop()
 
-	// Extract slot content from the component tag if not already processed
-	if ctx.SlotScope == nil {
-		ctx.SlotScope = extractSlotContent(node)
-	}
+	// Every include tag supplies the slot content of its own component instance. The scope
+	// that is in effect where the tag is written remains reachable as parent (see evalSlot).
+	slotScope := extractSlotContent(node)
+	slotScope.parent = ctx.SlotScope
+	ctx.SlotScope = slotScope
 
 	// Merge inherited slots from parent template (passed via __slotScope__ in data)
 	if inheritedSlotScopeData, ok := ctx.stack.EnvMap()["__slotScope__"]; ok {
